@@ -205,6 +205,28 @@ def scenic_lines(c):
             L.append(f'reg{i} = PointSetRegion("reg{i}", [{fv(c["base"])}], orientation=gf{i})')
             L.append(f"c{i} = new Object {pm} reg{i}, {facing}, {new}")
         return L, "obj"
+    if k == "on":
+        new = f"{dims_txt(c['ndim'])}, with contactTolerance {c['ct'] / lat3.SCALE}{own_txt(c['own'])}, {COMMON}{tag(i)}"
+        od = f", with onDirection {tuple(c['dir'])}" if c["dirk"] == "given" else ""
+        if c["rk"] == "vec":
+            L.append(f"c{i} = new Object on {fv(c['P'])}, {new}")
+            return L, "obj"
+        if c["rk"] == "hollow":
+            b = c["boxes"][0]
+            dims = tuple((b["hi"][j] - b["lo"][j]) / lat3.SCALE for j in range(3))
+            ctr = tuple((b["hi"][j] + b["lo"][j]) / (2 * lat3.SCALE) for j in range(3))
+            L.append(f"reg{i} = BoxRegion(dimensions={dims}, position={ctr}).getSurfaceRegion()")
+        elif c["rk"] == "stack":
+            parts = []
+            for b in c["boxes"]:
+                dims = tuple((b["hi"][j] - b["lo"][j]) / lat3.SCALE for j in range(3))
+                ctr = tuple((b["hi"][j] + b["lo"][j]) / (2 * lat3.SCALE) for j in range(3))
+                parts.append(f"trimesh.creation.box({dims}, trimesh.transformations.translation_matrix({ctr}))")
+            L.append(f"reg{i} = MeshVolumeRegion(trimesh.util.concatenate([{', '.join(parts)}]), centerMesh=False)")
+        else:
+            L.append(obj_line(f"reg{i}", c["ref"], c["rdim"]))
+        L.append(f"c{i} = new Object at {fv(c['P'])}, on reg{i}{od}, {new}")
+        return L, "obj"
     if k == "ori":
         return [], "api"
     raise MachineryError(f"no printer for kind {k}")
@@ -342,6 +364,41 @@ def _generate_pass(tier, rng, cases):
                 fa, fb = rng.sample(fvals + [orient((0, 1, 0)), orient((2, 0, 1)), orient((3, 3, 0))], 2)
                 add(kind="facep", pm=pm, fk=fk, par=par, base=qv(P()), D=rng.choice([2, 4, 6]), V=rng.choice([[4, 8, 12], [-8, 4, 6], [12, -4, -8]]),
                     ndim=rng.choice([[4, 8, 12], [12, 4, 8]]), ct=2, fa=fa, fb=fb)
+    # ---- on (modifying): projection along +-onDirection onto the NEAREST point of a mesh surface / volume / object top
+    def box(lo, hi):
+        return {"lo": qv(lo), "hi": qv(hi)}
+
+    axes = [(1, 0, 0), (-1, 0, 0), (0, 1, 0), (0, -1, 0), (0, 0, 1), (0, 0, -1)]
+    for rep in range(2 if tier == "quick" else 8):
+        o = qv(P())
+        lo = [o[0] - 20, o[1] - 20, o[2] - 20]
+        hollow = {"lo": lo, "hi": [lo[0] + 40, lo[1] + 40, lo[2] + 40]}  # a 10 x 10 x 10 hollow box
+        for d in axes:
+            ax = [abs(x) for x in d].index(1)
+            for t in (4, 33, 14):  # 1 from the low face, 1.75 from the high face, 3.5 from the low face
+                pt = [lo[0] + 22, lo[1] + 18, lo[2] + 26]
+                pt[ax] = lo[ax] + t
+                add(kind="on", rk="hollow", boxes=[hollow], P=pt, dirk="given", dir=list(d), ndim=rng.choice([[4, 8, 8], [8, 4, 12]]), ct=2, own=[0, 0, 0],
+                    ref=pose((0, 0, 0)), rdim=[4, 4, 4])
+        # two stacked boxes with a gap of 6 between them (z 0..2 and 8..10 relative to the base)
+        b1 = {"lo": lo, "hi": [lo[0] + 24, lo[1] + 24, lo[2] + 8]}
+        b2 = {"lo": [lo[0], lo[1], lo[2] + 32], "hi": [lo[0] + 24, lo[1] + 24, lo[2] + 40]}
+        for dz, dirk, d in ((14, "default", (0, 0, 1)), (27, "default", (0, 0, 1)), (14, "given", (0, 0, -1)), (27, "given", (0, 0, 1)),
+                            (50, "default", (0, 0, 1)), (-9, "given", (0, 0, -1)), (35, "default", (0, 0, 1)), (18, "given", (0, 0, 1))):
+            add(kind="on", rk="stack", boxes=[b1, b2], P=[lo[0] + 10, lo[1] + 14, lo[2] + dz], dirk=dirk, dir=list(d), ndim=rng.choice([[4, 8, 8], [8, 4, 12]]), ct=2,
+                own=list(rng.choice(owns)), ref=pose((0, 0, 0)), rdim=[4, 4, 4])
+        # a box lying beside the point, explicit horizontal direction: only one of the two rays hits
+        add(kind="on", rk="stack", boxes=[b1], P=[lo[0] - 10, lo[1] + 6, lo[2] + 3], dirk="given", dir=[-1, 0, 0], ndim=[4, 8, 8], ct=2, own=[0, 0, 0], ref=pose((0, 0, 0)), rdim=[4, 4, 4])
+        for ore in some_orients(3 if tier == "quick" else 12, pyth=0):
+            rdim = rng.choice([[16, 24, 8], [24, 16, 12]])
+            m = lat3.rot4(ore["e"])
+            ctr = qv(P())
+            top = sum(abs(m[2][j]) * (rdim[j] // 2) for j in range(3))  # half extent of the rotated box along global z
+            a, b, t = rng.choice([-3, 2, 1]), rng.choice([-2, 3, 1]), rng.choice([6, 18])
+            add(kind="on", rk="objtop", boxes=[], P=[ctr[0] + a, ctr[1] + b, ctr[2] + top + t], dirk="default", dir=[0, 0, 1], ndim=rng.choice([[4, 8, 8], [8, 4, 12]]), ct=2,
+                own=[0, 0, 0], ref=dict(ore, p=ctr), rdim=rdim)
+        add(kind="on", rk="vec", boxes=[], P=qv(P()), dirk="default", dir=[0, 0, 1], ndim=rng.choice([[4, 8, 8], [8, 4, 12]]), ct=2, own=list(rng.choice(owns)),
+            ref=pose((0, 0, 0)), rdim=[4, 4, 4])
     # ---- Orientation / Vector algebra through the Python API
     for o1 in some_orients(nq, pyth=2):
         add(kind="ori", sub="euler", o1=o1, o2=orient(), V=[0, 0, 0])
@@ -399,7 +456,7 @@ def run_program(item):
     cases = [c for c in cases if c["kind"] != "ori"]
     if not cases:
         return {"obs": api_out}
-    lines = ["ego = new Object at (1000, 1000, 1000), with allowCollisions True, with requireVisible False"]
+    lines = ["import trimesh", "ego = new Object at (1000, 1000, 1000), with allowCollisions True, with requireVisible False"]
     where = {}
     for c in cases:
         ls, how = scenic_lines(c)
@@ -450,6 +507,10 @@ def compare(c, e, o):
             if e["dev"] != "none" and "r" in o and lat3.mat_close(o["r"], e["ir"], e["ird"], TOL):
                 rot_dev = True
             bad.append(("orientation", [[x / e["rd"] for x in row] for row in e["r"]], o.get("r")))
+    if e.get("up"):  # `on`: the object's z axis is the outward normal of the surface it was put on (yaw not demanded)
+        col = [row[2] for row in o["r"]] if "r" in o else None
+        if col is None or not lat3.vec_close(col, e["up"], e["ups"], TOL):
+            bad.append(("up axis", [x / e["ups"] for x in e["up"]], col))
     if e["a"]:
         cc, ss, dd = e["a"]
         if "s" not in o or abs(math.cos(o["s"]) - cc / dd) > TOL or abs(math.sin(o["s"]) - ss / dd) > TOL:
@@ -481,7 +542,8 @@ def main(tier):
     ck.add_tlc("GeomSpec", res)
     if res.coverage.get("Pick", (0, 0))[1] == 0:
         raise MachineryError("GeomSpec.tla: Pick never taken")
-    exp = {o["id"]: o["e"] for o in res.outputs}
+    exp = {o["id"]: dict(o["e"], up=o.get("up") or [], ups=o.get("ups", 0)) for o in res.outputs}
+    discriminating = {o["id"] for o in res.outputs if o.get("disc")}
     noncommuting = {o["id"] for o in res.outputs if o.get("nc")}
     if len(exp) != len(cases):
         raise MachineryError(f"TLC printed {len(exp)} expected records for {len(cases)} cases")
@@ -516,6 +578,8 @@ def main(tier):
             key = c["kind"] + ("/" + c["sub"] if "sub" in c else "") + ("/" + c["tk"] if "tk" in c else "")
             if c["kind"] == "facep":
                 key += f"/{c['pm']}/{c['fk']}"
+            if c["kind"] == "on":
+                key += f"/{c['rk']}/{c['dirk']}"
             kinds[key] = kinds.get(key, 0) + 1
             nontrivial = any(isinstance(v, dict) and (v.get("e") not in (None, [0, 0, 0]) or v.get("yq") not in (None, [1, 0, 1])) for v in c.values())
             ck.case(json.dumps({k: v for k, v in c.items() if k != "id"}, sort_keys=True), nontrivial)
@@ -523,6 +587,8 @@ def main(tier):
                 stats["free_orientation"] += 1
             if c["id"] in noncommuting:
                 stats["facing_under_parent_noncommuting"] += 1
+            if c["id"] in discriminating:
+                stats["on_nearest_hit_against_direction"] = stats.get("on_nearest_hit_against_direction", 0) + 1
             bad, rot_dev = compare(c, e, o)
             if not bad:
                 ck.validated()
